@@ -20,6 +20,19 @@ pub struct LowRankMassMatrixStrategy {
     settings: LowRankSettings,
 }
 
+#[cfg(nuts_rs_verif)]
+impl LowRankMassMatrixStrategy {
+    /// `(draws, gradients, background_split)`: the positions and gradients currently held by the
+    /// estimator window, oldest first, and the index from which the background window starts.
+    pub fn verif_window(&self) -> (Vec<Vec<f64>>, Vec<Vec<f64>>, usize) {
+        (
+            self.draws.iter().cloned().collect(),
+            self.grads.iter().cloned().collect(),
+            self.background_split,
+        )
+    }
+}
+
 impl LowRankMassMatrixStrategy {
     pub fn new(ndim: usize, settings: LowRankSettings) -> Self {
         let draws = VecDeque::with_capacity(100);
